@@ -22,6 +22,10 @@
 //   - what the analysis cannot classify is emitted with kind "unclassified" and makes the check
 //     fail rather than being ignored.
 //
+// Two further obligations are computed by inner.go (go/types based) and printed under "inner":
+// the foreign-container methods a wrapper calls under a read lock / no lock are read-only on their
+// receiver, and the concurrent packages have no unsynchronised package-level state.
+//
 //	footprint -repo /repo            prints JSON on stdout
 package main
 
